@@ -83,6 +83,7 @@ class Ctx(object):
         self.notes = collections.Counter()
         self.case = None
         self._viol_kinds = collections.Counter()
+        self._viol_stored = collections.Counter()
 
     # -- oracle sinks
     def judged(self, key, nontrivial=True, sample=None, elements=1):
@@ -102,8 +103,10 @@ class Ctx(object):
         self.floor[repr(cell)] += 1
 
     def violation(self, kind, message, event=None, extra=None, key=None):
-        self._viol_kinds[kind] += 1
-        if len(self.violations) >= MAX_VIOL_PER_SHARD or self._viol_kinds[kind] > 8:
+        self._viol_kinds[kind if key is None else '%s[%s]' % (kind, key)] += 1
+        # stored witnesses are capped per (kind, classifier key): witnesses of a listed finding must never crowd out an unlisted violation of the same kind
+        self._viol_stored[(kind, key)] += 1
+        if self._viol_stored[(kind, key)] > 8 or sum(1 for v in self.violations if v.key == key) >= MAX_VIOL_PER_SHARD:
             self.notes['violations_not_stored'] += 1
             return
         evd = None
